@@ -295,7 +295,8 @@ fn archive_main(home: &Files) -> Option<(&String, &Vec<u8>)> {
 
 /// path of which `p` is (possibly) a conflict-copy
 fn conflict_base(p: &str) -> Option<&str> {
-    p.find(".conflict-").map(|i| &p[..i])
+    // a conflict-copy of a conflict-copy: the LAST `.conflict-` separates the copied path from the suffix
+    p.rfind(".conflict-").map(|i| &p[..i])
 }
 
 /// State invariant of C08 on one crash state.
@@ -463,10 +464,54 @@ fn c02_lost(pre: &(Files, Files, Files), post: &(Files, Files, Files)) -> Option
     None
 }
 
+/// Scenario given as a state of the bisync history graph (E2): trees + recorded state, materialised directly.
+pub struct StateScn {
+    pub name: String,
+    pub a: crate::e2::Tree,
+    pub b: crate::e2::Tree,
+    pub r: Option<crate::e2::Tree>,
+}
+
+struct NameOnly {
+    name: String,
+}
+
+fn prepare_state(slot: &Slot, s: &StateScn) {
+    for n in ["A", "B", "home", "tpl"] {
+        wipe(&slot.root.join(n));
+    }
+    let cs = crate::e2::contents();
+    for (root, t) in [(slot.a(), &s.a), (slot.b(), &s.b)] {
+        for (p, id) in t {
+            write_files(&root, &[(p.as_str(), cs[(*id - 1) as usize].clone())]);
+        }
+    }
+    if let Some(r) = &s.r {
+        let (rel, bytes) = crate::e2::archive_bytes(&slot.a(), &slot.b(), r);
+        let full = slot.home().join(rel);
+        if let Some(d) = full.parent() {
+            let _ = std::fs::create_dir_all(d);
+        }
+        let _ = std::fs::write(full, bytes);
+    }
+    for n in ["A", "B", "home"] {
+        copy_dir(&slot.root.join(n), &slot.tpl().join(n));
+    }
+}
+
 fn c08_scenario(slot: &Slot, s: &Scn, max_subsets: usize, evals: &AtomicU64, nontrivial: &AtomicU64, positions: &AtomicU64) -> Vec<Violation> {
+    slot.prepare(s);
+    c08_prepared(slot, &NameOnly { name: s.name.to_string() }, max_subsets, evals, nontrivial, positions)
+}
+
+fn c08_state_scenario(slot: &Slot, s: &StateScn, max_subsets: usize, evals: &AtomicU64, nontrivial: &AtomicU64, positions: &AtomicU64) -> Vec<Violation> {
+    prepare_state(slot, s);
+    c08_prepared(slot, &NameOnly { name: s.name.clone() }, max_subsets, evals, nontrivial, positions)
+}
+
+fn c08_prepared(slot: &Slot, s: &NameOnly, max_subsets: usize, evals: &AtomicU64, nontrivial: &AtomicU64, positions: &AtomicU64) -> Vec<Violation> {
     let mut out: Vec<Violation> = Vec::new();
     let logp = slot.root.join("log");
-    slot.prepare(s);
     let pre = slot.state();
     // (1) uninterrupted, twice: determinism + N
     slot.restore();
@@ -596,7 +641,7 @@ pub fn run_c08(ctx: &Ctx) -> ! {
         None => scs.iter().collect(),
     };
     let max_subsets = if thorough { 64 } else { 8 };
-    let violations: Vec<Violation> = chosen
+    let mut violations: Vec<Violation> = chosen
         .par_iter()
         .enumerate()
         .flat_map_iter(|(i, s)| {
@@ -605,12 +650,60 @@ pub fn run_c08(ctx: &Ctx) -> ! {
             c08_scenario(&slot, s, max_subsets, &evals, &nontrivial, &positions)
         })
         .collect();
+    // "forall scenarios": every distinct bisync transition of the E2 history graph is a scenario
+    let bounds = if thorough {
+        vec![crate::e2::Bound { u0: vec!["f"], e: 3, m: 2, state_cap: 400_000 }, crate::e2::Bound { u0: vec!["f", "d/g"], e: 2, m: 1, state_cap: 400_000 }]
+    } else {
+        vec![crate::e2::Bound { u0: vec!["f"], e: 2, m: 2, state_cap: 400_000 }]
+    };
+    let mut pre: Vec<(crate::e2::State, Vec<String>)> = Vec::new();
+    let _ = crate::e2::explore_collect(ctx, "none", &bounds, 0, Some(&mut pre));
+    let graph: Vec<StateScn> = pre.into_iter().map(|(st, h)| StateScn { name: format!("G: {}", h.join(" ; ")), a: st.a, b: st.b, r: st.r }).collect();
+    let graph_scenarios = if only.is_some() { 0 } else { graph.len() };
+    let chosen_graph: Vec<&StateScn> = match &only {
+        Some(n) => graph.iter().filter(|g| g.name == *n).collect(),
+        None => graph.iter().collect(),
+    };
+    let next = AtomicU64::new(0);
+    let gv: Mutex<Vec<Violation>> = Mutex::new(Vec::new());
+    std::thread::scope(|sc| {
+        for w in 0..16 {
+            let (next, gv, chosen_graph, base, evals, nontrivial, positions) = (&next, &gv, &chosen_graph, &base, &evals, &nontrivial, &positions);
+            sc.spawn(move || {
+                let slot = Slot { root: base.path(&format!("g{w}")) };
+                let _ = std::fs::create_dir_all(&slot.root);
+                loop {
+                    let i = next.fetch_add(1, Ordering::Relaxed) as usize;
+                    if i >= chosen_graph.len() {
+                        break;
+                    }
+                    let vs = c08_state_scenario(&slot, chosen_graph[i], max_subsets, evals, nontrivial, positions);
+                    if !vs.is_empty() {
+                        if let Ok(mut g) = gv.lock() {
+                            g.extend(vs);
+                        }
+                    }
+                }
+            });
+        }
+    });
+    let mut gvs = gv.into_inner().unwrap_or_default();
+    gvs.sort_by_key(|v| v.detail["scenario"].as_str().map_or(0, str::len));
+    let mut per: std::collections::HashMap<String, usize> = Default::default();
+    for v in gvs {
+        let c = per.entry(v.kind().to_string()).or_insert(0);
+        *c += 1;
+        if *c <= 3 {
+            violations.push(v);
+        }
+    }
     let mut rep = Report::new("fault_enumeration");
     rep.set("evaluations", evals.load(Ordering::Relaxed))
         .set("distinct_nontrivial", nontrivial.load(Ordering::Relaxed))
         .set("kill_points", positions.load(Ordering::Relaxed))
         .set("scenarios", chosen.iter().map(|s| s.name).collect::<Vec<_>>())
-        .set("rule", "per scenario (prepared by a real prior sync so a trusted archive exists): the process is SIGKILLed immediately before its k-th file-system-mutating libc call for EVERY k = 1..N+1 (N from the interposer log of the uninterrupted run, which is replayed twice for determinism); at each k additionally every subset (capped) of files written since their last fsync is torn (empty / half) — crash model: metadata operations persist in issue order, file data only up to the last fsync; each crash state is checked against the state invariant, then recovered with up to 3 more runs; non-trivial = crash state differs from both the initial and the final state")
+        .set("graph_scenarios", graph_scenarios as u64)
+        .set("rule", "scenarios = the named ones (prepared by a real prior sync) PLUS every distinct bisync transition of the bisync history graph (E2 bound; pre-state materialised with its recorded state); per scenario (prepared by a real prior sync so a trusted archive exists): the process is SIGKILLed immediately before its k-th file-system-mutating libc call for EVERY k = 1..N+1 (N from the interposer log of the uninterrupted run, which is replayed twice for determinism); at each k additionally every subset (capped) of files written since their last fsync is torn (empty / half) — crash model: metadata operations persist in issue order, file data only up to the last fsync; each crash state is checked against the state invariant, then recovered with up to 3 more runs; non-trivial = crash state differs from both the initial and the final state")
         .set("samples", json!([{"scenario":"S6-both-changed","kill_at":9,"torn":null},{"scenario":"S2-propagate-A-to-B","kill_at":7,"torn":{"mask":1,"mode":"empty"}}]))
         .set("exhaustive", true);
     rep.assume("crash model: rename/unlink/mkdir persist in issue order; data persists only up to the last fsync of that file unless chosen otherwise; a single crash per run; tmpfs stands in for the disk");
